@@ -76,6 +76,10 @@ pub fn index_classes() -> Vec<(String, usize)> {
         ("2^20-1".into(), (1 << 20) - 1),
         ("2^16+1".into(), (1 << 16) + 1),
         ("2^17".into(), 1 << 17),
+        // positions a batch removal list (one byte per index) can name, next to the member
+        ("5".into(), 5),
+        ("100".into(), 100),
+        ("254".into(), 254),
     ]
 }
 
@@ -174,6 +178,29 @@ pub fn place(c: &mut Ctx, case: &Case, rng: &mut impl rand::RngCore) -> Result<&
             c.delete(j);
         } else {
             c.set(j, rand_fr(rng));
+        }
+    }
+    // batch updates right next to the member (the batch path of the backends differs from the single-leaf one):
+    // removal lists naming a neighbour once, twice or unsorted, and a range written directly behind the member
+    static NEIGHBOUR_BATCH_NO: std::sync::atomic::AtomicUsize = std::sync::atomic::AtomicUsize::new(0);
+    if i >= 2 && i + 1 < 256 {
+        // every eligible case gets one; the four shapes rotate
+        let rm: Vec<usize> = match NEIGHBOUR_BATCH_NO.fetch_add(1, std::sync::atomic::Ordering::Relaxed) % 4 {
+            0 => vec![i - 1, i - 1],
+            1 => vec![i + 1, i - 1],
+            2 => vec![i - 2, i - 1, i - 1, i - 2],
+            _ => vec![i - 1],
+        };
+        let rm8: Vec<u8> = rm.iter().map(|x| *x as u8).collect();
+        let start = *rm.iter().min().unwrap();
+        if c.rln.atomic_operation(start, Cursor::new(enc_vec_fr(&[])), Cursor::new(enc_vec_u8(&rm8))).is_ok() {
+            c.model.batch(start, &[], &rm);
+        }
+    }
+    if i + 4 <= (1 << 12) && rng.gen_range(0..4) == 0 {
+        let extra = [rand_fr(rng), rand_fr(rng)];
+        if c.rln.set_leaves_from(i + 1, Cursor::new(enc_vec_fr(&extra))).is_ok() {
+            c.model.write_range(i + 1, &extra);
         }
     }
     Ok(how)
